@@ -255,3 +255,9 @@ func init() {
 		[]string{"Prims.Lawful", "NoIdentifierCollision (explicit hypothesis)"}, commonTrusted)
 	reg("C05", func(ctx *Ctx, emit func(Case)) { genSignRoundTrip(ctx, emit) }, []string{"Prims.Lawful"}, commonTrusted)
 }
+
+func init() {
+	reg("C11", func(ctx *Ctx, emit func(Case)) { genArmor(ctx, emit) },
+		[]string{"frames are measured after trimming surrounding white space (what parseFrame receives); bytes >= 0x80 never reach the frame parser (toASCII rejects them)"},
+		[]string{"regexp and strings.TrimSpace/Split of the Go standard library (re-implemented as recognisers, compared on enumerated and random strings)", "harness/cmd/corr"})
+}
